@@ -76,6 +76,38 @@ theorem auth_variants_agree_polled (c : Cfg) (hp : PatsQuietOnEmpty c.pats) (tS 
     authTelnetAsync c tA = authTelnetSync c tS :=
   auth_variants_agree c hp tS tA hne hkS hkA (polled_strip hpoll)
 
+/-! `refine_both_agree` applied: the two login loops, packaged as stacks (operation list = the event tape),
+    both refine the specification "the sync machine run on the tape without its empty reads" on the domain
+    of tapes without connection error and without an elapsed return interval; hence they agree. -/
+def outcomeName : Outcome → String
+  | .pending => "pending" | .done => "done" | .authFailed => "authFailed" | .connError => "connError"
+
+def authStack (run : Cfg → List Ev → List Bytes × Outcome) (c : Cfg) : Stack Ev Unit :=
+  fun evs _ _ => ⟨(run c evs).1, [], [outcomeName (run c evs).2]⟩
+
+def authSpec (c : Cfg) : Stack Ev Unit := authStack (fun c evs => authTelnetSync c (strip evs)) c
+
+def AuthDom (c : Cfg) : List Ev → List Bytes → Unit → Prop := fun evs _ _ => NoEof evs ∧ NoKick c evs
+
+theorem auth_sync_refines_spec (c : Cfg) (hp : PatsQuietOnEmpty c.pats) :
+    Refines (AuthDom c) (authStack authTelnetSync c) (authSpec c) := by
+  intro evs _ _ ⟨_, hk⟩
+  have : authTelnetSync c evs = authTelnetSync c (strip evs) := by
+    unfold authTelnetSync; rw [runSync_strip c hp evs {} (quiet_init c hp) hk]
+  simp [authStack, authSpec, this]
+
+theorem auth_async_refines_spec (c : Cfg) (hp : PatsQuietOnEmpty c.pats) :
+    Refines (AuthDom c) (authStack authTelnetAsync c) (authSpec c) := by
+  intro evs _ _ ⟨hne, hk⟩
+  have h1 : authTelnetAsync c evs = authTelnetSync c evs := auth_variants_agree c hp evs evs hne hk hk rfl
+  have h2 : authTelnetSync c evs = authTelnetSync c (strip evs) := by
+    unfold authTelnetSync; rw [runSync_strip c hp evs {} (quiet_init c hp) hk]
+  simp [authStack, authSpec, h1, h2]
+
+theorem auth_stacks_agree (c : Cfg) (hp : PatsQuietOnEmpty c.pats) :
+    ∀ evs tape f, AuthDom c evs tape f → authStack authTelnetSync c evs tape f = authStack authTelnetAsync c evs tape f :=
+  refine_both_agree (AuthDom c) _ _ (authSpec c) (auth_sync_refines_spec c hp) (auth_async_refines_spec c hp)
+
 /-- the hypotheses hold for the default patterns the model's concrete predicates implement … -/
 theorem default_pats_quiet : PatsQuietOnEmpty defaultPats := ⟨by decide, by decide, by decide⟩
 
